@@ -28,3 +28,144 @@ def _op_contains(E, path, args, kwargs):
 def _op_eq(E, path, args, kwargs):
     a, b = args
     return E.py_eq(path, a, b)
+
+
+# ------------------------------------------------------------------------------------------
+# compiled regular expressions held in module constants (re.compile descriptors from E1)
+# ------------------------------------------------------------------------------------------
+def _group_min_widths(pattern, flags):
+    """minimum length of the text captured by each group (from CPython's own regex parser)"""
+    import re
+    try:
+        import re._parser as sp
+        import re._constants as sc
+    except ImportError:
+        import sre_parse as sp
+        import sre_constants as sc
+    out = {}
+
+    def walk(items):
+        for op, av in items:
+            if op == sc.SUBPATTERN:
+                group, _, _, sub = av
+                if group:
+                    out[group] = int(sub.getwidth()[0])
+                walk(sub)
+            elif op in (sc.MAX_REPEAT, sc.MIN_REPEAT):
+                walk(av[2])
+            elif op == sc.BRANCH:
+                for alt in av[1]:
+                    walk(alt)
+    walk(sp.parse(pattern, flags))
+    return out
+
+
+def _group_finite_values(pattern, flags):
+    """groups that are a single character from a set of at most 4 characters -> their possible values"""
+    try:
+        import re._parser as sp
+        import re._constants as sc
+    except ImportError:
+        import sre_parse as sp
+        import sre_constants as sc
+    out = {}
+
+    def walk(items):
+        for op, av in items:
+            if op == sc.SUBPATTERN:
+                group, _, _, sub = av
+                if group and len(sub) == 1:
+                    o2, a2 = sub[0]
+                    if o2 == sc.LITERAL:
+                        out[group] = [chr(a2)]
+                    elif o2 == sc.IN and all(x[0] == sc.LITERAL for x in a2) and len(a2) <= 4:
+                        out[group] = [chr(x[1]) for x in a2]
+                walk(sub)
+            elif op in (sc.MAX_REPEAT, sc.MIN_REPEAT):
+                walk(av[2])
+            elif op == sc.BRANCH:
+                for alt in av[1]:
+                    walk(alt)
+    walk(sp.parse(pattern, flags))
+    return out
+
+
+def install_regex(E):
+    from .symexec import Atom, SStr, SBool
+
+    class ReMatch:
+        sym_mro = ["re.Match", "builtins.object"]
+
+        def __init__(self, pattern, flags, subject, ok):
+            self.pattern, self.flags, self.subject = pattern, flags, subject
+            self.sym_truthy = ok
+
+        def sym_getattr(self, E, path, name):
+            if name == "groups":
+                return ReGroups(self)
+            E.throw(path, "AttributeError", name)
+
+    class ReGroups:
+        sym_mro = ["builtins.builtin_function_or_method", "builtins.object"]
+        sym_truthy = True
+
+        def __init__(self, m):
+            self.m = m
+
+        def sym_call(self, E, path, args, kwargs):
+            import re
+            n = re.compile(self.m.pattern, self.m.flags).groups
+            U = E.U
+            widths = _group_min_widths(self.m.pattern, self.m.flags)
+            out = []
+            subj = self.m.subject
+            st = subj.term() if isinstance(subj, SStr) else z3.StringVal(subj)
+            finite = _group_finite_values(self.m.pattern, self.m.flags)
+            for i in range(n):
+                if (i + 1) in finite:
+                    # a group over a tiny alphabet (e.g. a sign): enumerate its values instead of keeping it symbolic
+                    vals = finite[i + 1]
+                    k = path.choose([("absent", None)] + [(v, None) for v in vals])
+                    out.append(None if k == 0 else vals[k - 1])
+                    continue
+                g = U.fresh(f"group{i + 1}")
+                f = E.uf(f"re_group_{i + 1}", z3.StringSort(), z3.StringSort())
+                # a group is None (did not participate) or a string: a function of the subject
+                path.assume_fact(z3.Or(U.is_tag("NoneV", g), z3.And(U.is_tag("StrV", g), E.PV.s(g) == f(st),
+                                                                  z3.Length(f(st)) >= widths.get(i + 1, 0))))
+                path.ghost.setdefault("regroups", {})[z3.simplify(f(st)).get_id()] = (self.m.pattern, self.m.flags, i + 1)
+                out.append(E.from_pv(g))
+            # from_pv of a fresh constant yields Sym; string atoms are created when the value is used
+            return tuple(out)
+
+    class ReMethod:
+        sym_mro = ["builtins.builtin_function_or_method", "builtins.object"]
+        sym_truthy = True
+
+        def __init__(self, pattern, flags, name):
+            self.pattern, self.flags, self.name = pattern, flags, name
+
+        def sym_call(self, E, path, args, kwargs):
+            if self.name == "fullmatch":
+                (subj,) = args
+                subj = E.as_sstr(path, subj)
+                st = subj.term() if isinstance(subj, SStr) else z3.StringVal(subj)
+                ok = E.uf("re_fullmatch", z3.StringSort(), z3.StringSort(), z3.BoolSort())(z3.StringVal(self.pattern), st)
+                return ReMatch(self.pattern, self.flags, subj, ok)
+            if self.name == "sub":
+                repl, subj = args
+                subj = E.as_sstr(path, subj)
+                if not isinstance(repl, str):
+                    raise Unsupported("re.sub with non-constant replacement")
+                st = subj.term() if isinstance(subj, SStr) else z3.StringVal(subj)
+                f = E.uf("re_sub", z3.StringSort(), z3.StringSort(), z3.StringSort(), z3.StringSort())
+                return SStr([Atom(f(z3.StringVal(self.pattern), z3.StringVal(repl), st),
+                                  ("resub", subj if isinstance(subj, SStr) else SStr([subj]), self.pattern, repl))])
+            raise Unsupported(f"re.Pattern.{self.name}")
+
+    def attr_model(E, path, o, name):
+        if isinstance(o, ExtVal) and o.name == "re.compile" and name in ("fullmatch", "sub"):
+            return ReMethod(o.args[0], o.args[1], name)
+        return NotImplemented
+    E.attr_models[("re.compile", "fullmatch")] = attr_model
+    E.attr_models[("re.compile", "sub")] = attr_model
